@@ -66,7 +66,7 @@ ITER=${C20_RACE_ITER:-200}
   worst=0
   for p in "${pids[@]}"; do wait $p; r=$?; [ $r -gt $worst ] && worst=$r; done
   cat "$RACEDIR"/stdout.* >"$RACEDIR/stdout"
-  if [ $worst -le 1 ]; then echo "done $ITER iterations per scenario, exit=$worst" >"$RACEDIR/status"; else echo "failed exit=$worst" >"$RACEDIR/status"; fi
+  if [ $worst -le 1 ]; then echo "done $ITER iterations per scenario, exit=$worst" >"$RACEDIR/status"; else echo "crashed exit=$worst" >"$RACEDIR/status"; fi
 ) & racepid=$!
 
 # workers inherit the address-space cap: a runaway allocation kills one worker (reported), not the sandbox
@@ -75,7 +75,7 @@ ITER=${C20_RACE_ITER:-200}
 rc=$?
 wait $racepid
 grep -h "race pass:" "$RACEDIR"/stderr.* >&2
-grep -q "^failed" "$RACEDIR/status" && tail -n 20 "$RACEDIR"/stderr.* >&2
+grep -q "^crashed" "$RACEDIR/status" && grep -h -A6 "^fatal error\|^panic:" "$RACEDIR"/stderr.* | head -n 24 >&2
 
 # vacuity guard: schedules and distinct observed outcomes per scenario, from the evidence just written
 EV=${VERIF_EVIDENCE_DIR:-/verif/evidence}/C20.json
